@@ -656,7 +656,7 @@ def classify_c05(cs, visible):
 
 
 # ---------------------------------------------------------------- generation of the check's case list
-MAIN_REGIMES = ["plain", "dup", "reorder", "reorder", "udp-only", "udp-collide", "udp-reuse", "tcp-only", "tcp-reuse-late", "mixed"]
+MAIN_REGIMES = ["plain", "dup", "reorder", "tiecut", "udp-only", "udp-collide", "udp-reuse", "tcp-only", "tcp-reuse-late", "mixed", "tiecut", "reorder"]
 
 
 def gen_reuse(rng, name, early):
@@ -696,11 +696,40 @@ def gen_reuse(rng, name, early):
     return cs
 
 
+def gen_tiecut(rng, name):
+    """equal timestamps across file cuts: every timestamp is rounded down to a coarse quantum, so that whole groups of
+    consecutive packets of one conversation (request and reply, handshake and data) share a timestamp; the contiguous
+    cut then falls inside such groups, with the earlier file holding the higher or the lower in-file index.  The wire
+    order (= ground truth) is the generated order; only (timestamp, capture file name, index) can reproduce it."""
+    cs = gen_capture_set(rng, name, rng.choice(["mixed", "mixed", "plain", "dup"]))
+    q = rng.choice([1000, 1000000, 5000000, 60000000])
+    for p in cs.packets:
+        p["ts"] = (p["ts"] // q) * q
+    cs.regime = "tiecut"
+    return cs
+
+
+def cut_tiecut(rng, cs):
+    """cuts placed between two packets of equal timestamp (preferably of the same conversation); file sizes vary so that
+    both index orders occur (first file short -> low index on the early side)"""
+    n = len(cs.packets)
+    same = [i for i in range(1, n) if cs.packets[i]["ts"] == cs.packets[i - 1]["ts"]]
+    same_conv = [i for i in same if cs.packets[i]["cid"] == cs.packets[i - 1]["cid"]]
+    pool = same_conv or same or list(range(1, n))
+    k = min(len(pool), rng.choice([1, 1, 2, 3]))
+    cuts = rng.sample(pool, k) if pool else []
+    if rng.random() < 0.5 and n > 2:
+        cuts.append(rng.choice([1, 2]))           # a very short first file
+    return cut_files(rng, cs, "contig", cuts=cuts)
+
+
 def gen_set(rng, name, regime):
     if regime == "tcp-reuse-early":
         return gen_reuse(rng, name, True)
     if regime == "tcp-reuse-late":
         return gen_reuse(rng, name, False)
+    if regime == "tiecut":
+        return gen_tiecut(rng, name)
     return gen_capture_set(rng, name, regime)
 
 
@@ -818,7 +847,11 @@ def main(tier, seed, replay=None):
             regime = MAIN_REGIMES[i % len(MAIN_REGIMES)]
             cs = gen_set(rng, "m%d" % i, regime)
             mode = rng.choice(["contig", "contig", "flowsplit"])
-            cut_files(rng, cs, mode)
+            if regime == "tiecut":
+                mode = "contig"
+                cut_tiecut(rng, cs)
+            else:
+                cut_files(rng, cs, mode)
             sets.append((cs, schedules_c05(rng, cs, mode)))
         for i in range(nknown):
             cs = gen_set(rng, "k%d" % i, ["tcp-reuse-early", "seqwrap"][i % 2])
